@@ -139,10 +139,9 @@ _EFF = {}
 
 
 def shared_eff(prog):
-    if id(prog) not in _EFF:
-        _EFF.clear()
-        _EFF[id(prog)] = Effects(prog)
-    return _EFF[id(prog)]
+    if getattr(prog, "_shared_eff", None) is None:
+        prog._shared_eff = Effects(prog)
+    return prog._shared_eff
 
 
 def c01_rules():
@@ -169,9 +168,7 @@ def c05_rules():
     cache = {}
 
     def eff(prog):
-        if id(prog) not in cache:
-            cache[id(prog)] = Effects(prog)
-        return cache[id(prog)]
+        return shared_eff(prog)
     return [
         lambda prog, tier: inval.run_inval(prog, eff(prog)),
         lambda prog, tier: inval.run_fok(prog, eff(prog)),
